@@ -32,6 +32,14 @@ Definition py_getslice (w : list Z) (start stop : option Z) : list Z :=
   let hi := py_bound n stop n in
   zfirstn (hi - lo) (zskipn lo w).
 
+(* w[start:stop] = <the first (stop-start) bytes found behind a pointer>: cffi's extension for pointer
+   cdata sources, which have no length of their own (always length-preserving) *)
+Definition py_setslice_ptr (w : list Z) (start stop : option Z) (bs : list Z) : option (list Z) :=
+  let n := zlen w in
+  let lo := py_bound n start 0 in
+  let hi := Z.max lo (py_bound n stop n) in
+  if zlen bs <? hi - lo then None else Some (zfirstn lo w ++ zfirstn (hi - lo) bs ++ zskipn hi w).
+
 (* w[start:stop] = bs, allowed only when it preserves the length *)
 Definition py_setslice (w : list Z) (start stop : option Z) (bs : list Z) : option (list Z) :=
   let n := zlen w in
@@ -73,6 +81,11 @@ Definition spec_step (w : list Z) (o : op) : list Z * outcome :=
               match py_setslice w a b bs with
               | Some w' => (w', RDone)
               | None => (w, RErr ValueError)
+              end
+          | VPtrSrc bs =>
+              match py_setslice_ptr w a b bs with
+              | Some w' => (w', RDone)
+              | None => (w, RErr OutOfModel)
               end
           end
       end
